@@ -56,3 +56,15 @@ pub(crate) fn d_precedes(a: &TextSelection, b: &TextSelection) -> bool { a.end =
 pub(crate) fn d_succeeds(a: &TextSelection, b: &TextSelection) -> bool { a.begin == b.end }
 pub(crate) fn d_samebegin(a: &TextSelection, b: &TextSelection) -> bool { a.begin == b.begin }
 pub(crate) fn d_sameend(a: &TextSelection, b: &TextSelection) -> bool { a.end == b.end }
+
+// ---- stub for the whitespace-gap lookup `resource.text_by_offset(gap)` (string slicing + error construction,
+// out of reach): records the gap it was asked for and answers " " or "x" according to a per-harness flag.
+pub(crate) static mut GAP_IS_WS: bool = false;
+pub(crate) static mut GAP_ASKED: Option<(usize, usize)> = None;
+pub(crate) fn gap_stub<'a>(_r: &'a TextResource, offset: &Offset) -> Result<&'a str, StamError> where 'a: 'a {
+    let ws = unsafe { GAP_IS_WS };
+    if let (Cursor::BeginAligned(b), Cursor::BeginAligned(e)) = (offset.begin, offset.end) {
+        unsafe { GAP_ASKED = Some((b, e)); }
+    }
+    Ok(if ws { " " } else { "x" })
+}
